@@ -111,8 +111,11 @@ class SymVal:
         if isinstance(o, SymVal):
             k = o.t.const_value()
             if k is None:
-                RUN.tainted, RUN.taint_where = True, "power with symbolic exponent"
-                return SymVal(Frac(tm.const(0)), 0)
+                # symbolic exponent: the same uninterpreted pow the denotation uses (python's float pow as shadow)
+                import math
+
+                val = math.pow(float(self.s), float(o.s))  # ValueError outside the real domain, as float ** float complex
+                return SymVal(ring.apply_fn2("pow", self.t, o.t, None, None), Fraction(val))
             o = k
         if isinstance(o, float) and o == int(o):
             o = int(o)
@@ -134,8 +137,10 @@ class SymVal:
         return SymVal(Frac(tm.const(0)), 0)
 
     def __rpow__(self, o):
-        RUN.tainted, RUN.taint_where = True, "rpow"
-        return SymVal(Frac(tm.const(0)), 0)
+        o = _lift(o)
+        if o is NotImplemented:
+            return NotImplemented
+        return o.__pow__(self)
 
     # comparisons
     def _cmp(self, o, mk, py):
@@ -193,3 +198,43 @@ class SymVal:
 
     def __repr__(self):
         return f"SymVal({self.s})"
+
+
+# --------------------------------------------------------------------------
+# stub of the C-level math module (installed as ufl.mathfunctions.math by the C24 harness)
+# --------------------------------------------------------------------------
+
+import math as _math
+import numbers as _numbers
+
+_numbers.Real.register(SymVal)  # MathFunction.evaluate takes the math (not cmath) route for real numbers
+
+_UFL_NAME = {"log": "ln"}
+
+
+class MathStub:
+    """math.<f>(SymVal) -> SymVal whose term is the uninterpreted/defined function the denotation uses for <f>
+    and whose shadow is the C function's double result; everything else is forwarded to the real module.
+    Assumption recorded in the evidence: math.<f> computes <f>."""
+
+    def __getattr__(self, name):
+        real = getattr(_math, name)
+        if not callable(real):
+            return real
+
+        def wrapper(*args):
+            if not any(isinstance(a, SymVal) for a in args):
+                return real(*args)
+            args = [_lift(a) for a in args]
+            val = real(*[float(a.s) for a in args])  # raises ValueError outside the domain, like the real call
+            uname = _UFL_NAME.get(name, name)
+            if len(args) == 1:
+                return SymVal(ring.apply_fn(uname, args[0].t), Fraction(val))
+            if name == "atan2":
+                return SymVal(ring.apply_fn2("atan2", args[0].t, args[1].t, None, None), Fraction(val))
+            if name == "pow":
+                return SymVal(ring.apply_fn2("pow", args[0].t, args[1].t, None, None), Fraction(val))
+            RUN.tainted, RUN.taint_where = True, f"math.{name}"
+            return val
+
+        return wrapper
